@@ -1,2 +1,75 @@
-import Pakhi.Model.Interp
-import Pakhi.Model.Parser
+/-
+  C03 — break and continue act on exactly the innermost loop and restore scopes.
+
+  Theorems about the flat machine, for every state (every enclosing loop stack, every scope stack):
+  * `লুপ` records the statement after it and the current number of scopes;
+  * an `আবার;` — the loop's closing one or a continue statement anywhere in the body — jumps to the
+    innermost loop's start and discards exactly the scopes opened since that loop was entered;
+  * `break_exits_own_loop`: a `থামাও` nested in `k` open blocks of the body of the innermost loop, followed
+    textually by ANY well-formed code in those blocks (nested loops with their own `আবার;`, conditional
+    continue statements, chains with else-tails, blocks, function definitions), resumes exactly behind
+    that loop's own closing `আবার;`, pops exactly that loop and discards exactly the `k` scopes — the
+    statement fix F12 made true; no scope outside the loop is touched.
+  The interplay with calls (a `ফেরত` from inside a loop of the callee, fix F13) is C05.
+-/
+import Pakhi.Lemmas.Control
+
+namespace Pakhi
+namespace C03
+
+/-- entering a loop -/
+theorem loop_enters (prog : List Stmt) (f : Nat) (lm : Meta) (rest : List Stmt) (s : St) :
+    exec prog (f+1) (.loop lm :: rest) s =
+      .ok (rest, { s with loops := { start := rest, envs := s.scopes.length } :: s.loops }) := by
+  simp [exec]
+
+/-- `আবার;` restarts the innermost loop's body and discards the scopes opened inside it; the loop stack
+    and every scope that existed when the loop was entered are untouched -/
+theorem continue_restarts_innermost (prog : List Stmt) (f : Nat) (cm : Meta) (rest : List Stmt) (s : St) (l : LoopEnv) (ls : List LoopEnv)
+    (hl : s.loops = l :: ls) :
+    exec prog (f+1) (.cont cm :: rest) s = .ok (l.start, { s with scopes := s.scopes.drop (s.scopes.length - l.envs) }) ∧
+    (l.envs ≤ s.scopes.length → (s.scopes.drop (s.scopes.length - l.envs)).length = l.envs) := by
+  constructor
+  · simp [exec, hl]
+  · intro h; simp; omega
+
+/-- the scan behind a `থামাও` ignores everything well-formed that follows in the still-open blocks -/
+theorem break_scan_skips_following_code (bm : Meta) (ss : SList) (r : List Stmt) (d : Nat) (h : ss.WF) (hd : 1 ≤ d) :
+    breakScan bm (ss.flatten ++ r) d = breakScan bm r d := breakScan_list bm ss r d h hd
+
+/-- … and stops exactly behind the loop's own closing `আবার;` -/
+theorem break_scan_finds_own_loop (bm cm : Meta) (c : Closing) (after : List Stmt) (h : c.WF) :
+    breakScan bm (c.flatten ++ (.cont cm :: after)) c.depth = .ok after := breakScan_closing bm cm c after h
+
+/-- `থামাও` inside `c.depth` open blocks of the innermost loop's body: execution resumes after that loop,
+    exactly that loop is popped and exactly the scopes opened inside it are discarded -/
+theorem break_exits_own_loop (prog : List Stmt) (f : Nat) (bm cm : Meta) (c : Closing) (after : List Stmt) (s : St)
+    (l : LoopEnv) (ls : List LoopEnv) (hc : c.WF) (hl : s.loops = l :: ls) (hs : s.scopes.length = l.envs + c.depth) :
+    exec prog (f+1) (.brk bm :: (c.flatten ++ (.cont cm :: after))) s =
+      .ok (after, { s with scopes := s.scopes.drop c.depth, loops := ls }) ∧
+    (s.scopes.drop c.depth).length = l.envs := by
+  have hd : s.scopes.length - l.envs = c.depth := by omega
+  constructor
+  · simp only [exec, hl, hd, breakScan_closing bm cm c after hc]
+    simp [Res.tagOut]
+  · simp; omega
+
+/-- a `থামাও` after which no loop end follows is a located runtime error, not a panic or a hang -/
+theorem break_without_loop_end (prog : List Stmt) (f : Nat) (bm em : Meta) (s : St) :
+    (∃ e, exec prog (f+1) [.brk bm, .eos em] s = .err e ∧ e.cls = .runtime ∧ e.line = bm.line) ∧
+    (∃ e, exec prog (f+1) [.brk bm] s = .err e ∧ e.cls = .runtime ∧ e.line = bm.line) := by
+  constructor <;> (cases hl : s.loops <;> simp [exec, hl, breakScan, metaErr, mkErr, Res.tagOut])
+
+/-- an `আবার;` with no enclosing loop is a located runtime error -/
+theorem continue_outside_loop (prog : List Stmt) (f : Nat) (cm : Meta) (rest : List Stmt) (s : St) (hl : s.loops = []) :
+    ∃ e, exec prog (f+1) (.cont cm :: rest) s = .err e ∧ e.cls = .runtime ∧ e.line = cm.line := by
+  simp [exec, hl, stmtErr, mkErr, Res.tagOut, Stmt.meta]
+
+/-- non-vacuity: the shape the pinned code got wrong — after the break a nested loop and a conditional continue -/
+example : (Closing.cons (.cons (.loop ⟨2, []⟩ (.mk ⟨2, []⟩ .nil ⟨2, []⟩) ⟨2, []⟩)
+      (.cons (.ifChain (.bool true ⟨3, []⟩) ⟨3, []⟩ (.mk ⟨3, []⟩ (.cons (.cont ⟨3, []⟩) .nil) ⟨3, []⟩) .none) .nil))
+    ⟨4, []⟩ .none .nil).WF := by
+  simp [Closing.WF, SList.WF, SStmt.WF, SBlock.WF, STail.WF, Closing.depth]
+
+end C03
+end Pakhi
